@@ -221,6 +221,13 @@ func (n *node) readdir() ([]fuse.DirEntry, syscall.Errno) {
 			if name == whiteoutOpaqueDir {
 				return true
 			}
+			// A whiteout whose target can never be resolved by Lookup (an empty or dot
+			// name, or a name that is itself hidden) must not be listed.
+			if t := name[len(whiteoutPrefix):]; t == "" || t == "." || t == ".." ||
+				strings.HasPrefix(t, whiteoutPrefix) ||
+				(isRoot && (t == estargz.PrefetchLandmark || t == estargz.NoPrefetchLandmark || t == stateDirName)) {
+				return true
+			}
 			// Add the overlayfs-compiant whiteout later.
 			whiteouts[name] = id
 			return true
